@@ -164,6 +164,21 @@ func (e *Enc) envForCall(callee *ssa.Function, args []Val, results []*Term, st *
 	if e.envAlias != nil && callee == e.top {
 		e.envAlias(env, args)
 	}
+	if callee == e.top && len(e.freeVarVals) == len(callee.FreeVars) {
+		// captured variables are visible to the contract of a function literal under their source names
+		for i, fv := range callee.FreeVars {
+			if _, clash := env.vars[fv.Name()]; clash {
+				continue
+			}
+			v := e.freeVarVals[i]
+			if pt, ok := fv.Type().Underlying().(*types.Pointer); ok {
+				ad := e.addrOf(v, pt.Elem())
+				env.vars[fv.Name()] = SV{t: e.load(st, ad), typ: pt.Elem(), addr: ad}
+			} else {
+				env.vars[fv.Name()] = SV{t: v.t(), typ: fv.Type()}
+			}
+		}
+	}
 	if results != nil {
 		rs := callee.Signature.Results()
 		for i := 0; i < rs.Len(); i++ {
@@ -377,6 +392,7 @@ func (e *Enc) typeContractEnv(tc *FuncContract, sig *types.Signature, f Val, fty
 	env := &evalEnv{e: e, st: st, old: old, vars: map[string]SV{}, bound: map[string]SV{}}
 	env.pkg = e.L.typesPkg(tc.pkg)
 	env.self = SV{t: f.t(), typ: ftype}
+	env.typeVars = typeVarsOf(ftype)
 	// parameter names: from option `params=a,b,c`, else from the signature
 	var names []string
 	if p, ok := tc.opts["params"]; ok {
@@ -528,7 +544,7 @@ func (e *Enc) builtin(fr *Frame, x *ssa.Call, bi *ssa.Builtin, st *State) {
 		dst := e.val(fr, args[0]).t()
 		n := tb.Fresh("copied", "Int")
 		var srcLen *Term
-		if args[1].Type().Underlying().(*types.Basic) != nil && e.sortOf(args[1].Type()) == "Str" {
+		if e.sortOf(args[1].Type()) == "Str" {
 			srcLen = tb.StrLen(e.val(fr, args[1]).t())
 		} else {
 			srcLen = tb.SLen(e.val(fr, args[1]).t())
@@ -754,6 +770,29 @@ var libSpecs = map[string]*libSpec{
 	}},
 }
 
+func init() {
+	idx := func(last bool) *libSpec {
+		return &libSpec{apply: func(e *Enc, fr *Frame, x *ssa.Call, a []Val, st *State) bool {
+			tb := e.tb
+			r := e.fresh("stridx", x.Type())
+			s := a[0].t()
+			bound := tb.StrLen(s)
+			if a[1].t().sort == "Str" {
+				bound = tb.Sub(tb.StrLen(s), tb.StrLen(a[1].t()))
+			} else {
+				bound = tb.Sub(bound, tb.Int(1))
+			}
+			e.assume(tb.True(), tb.Or(tb.Eq(r, tb.Int(-1)), tb.And(tb.Le(tb.Int(0), r), tb.Le(r, bound))))
+			fr.vals[x] = Val{T: []*Term{r}}
+			e.modelled("strings.Index/LastIndex/IndexRune/IndexByte return -1 or an index at which the substring fits (trusted)")
+			return true
+		}}
+	}
+	for _, n := range []string{"strings.Index", "strings.LastIndex", "strings.IndexRune", "strings.IndexByte", "strings.LastIndexByte", "strings.IndexAny", "strings.LastIndexAny"} {
+		libSpecs[n] = idx(false)
+	}
+}
+
 func libSpecFor(f *ssa.Function) *libSpec {
 	return libSpecs[libName(f)]
 }
@@ -894,4 +933,18 @@ func (e *Enc) headPhi(head *ssa.BasicBlock, name string) (*ssa.Phi, bool) {
 // inputVals lists the terms whose model values describe a failing input of the unit under verification.
 func (e *Enc) inputVals() []NamedTerm {
 	return e.inputs
+}
+
+// typeVarsOf binds the type parameters of a generic named type to the arguments of an instantiation.
+func typeVarsOf(t types.Type) map[string]types.Type {
+	n, ok := t.(*types.Named)
+	if !ok || n.TypeArgs() == nil {
+		return nil
+	}
+	m := map[string]types.Type{}
+	tp := n.Origin().TypeParams()
+	for i := 0; i < tp.Len() && i < n.TypeArgs().Len(); i++ {
+		m[tp.At(i).Obj().Name()] = n.TypeArgs().At(i)
+	}
+	return m
 }
